@@ -37,7 +37,7 @@ ANCHORS = [
     "acnportal.acnsim.models.ev:EV.charge",
 ]
 REQUIRED = ["charge_calls_judged", "regime:ideal", "regime:l2-continuous", "regime:l2-stepwise",
-            "regime:l2-continuous+noise", "regime:l2-stepwise+noise", "sim_cells_checked"]
+            "regime:l2-continuous+noise", "regime:l2-stepwise+noise", "sim_cells_checked", "suite:charge_calls_judged"]
 BUDGET_S = {"quick": 200, "thorough": 2400}
 
 CUR = {"obs": None}
@@ -97,6 +97,8 @@ def _after(ctx, rate, exc):
 
 def worker_init():
     from acnportal.acnsim.models.battery import Battery
+    if _WRAPS:
+        return
     for cls in defining_classes(Battery, "charge"):
         _WRAPS.append(Wrap(cls, "charge", before=_before, after=_after).install())
 
@@ -149,6 +151,7 @@ def cases(seed, tier):
         kinds = ("EVSE", "DB", "FR") if sch != "sorted" else ("EVSE", "FR")
         d = gen.scenario(rng, sched=sch, kinds=kinds, noise_p=0.5, constraint_free_p=0.0 if sch == "sorted" else 0.2)
         out.append({"kind": "sim", "desc": d})
+    out.append({"kind": "suite"})  # the repository's own tests as one more workload under the same post-condition
     return out
 
 
@@ -191,6 +194,12 @@ def run_case(case, obs):
     try:
         if case["kind"] == "seq":
             _run_seq(case, obs)
+        elif case["kind"] == "suite":
+            CUR["obs"] = None  # the monitors live in the pytest subprocess
+            from vlib import simrun
+            simrun.run_repo_suite_monitored("C03", obs)
+            obs.evals = max(1, obs.events.get("suite:charge_calls_judged", 0))
+            obs.sample = {"kind": "suite", "charge_calls_judged": obs.events.get("suite:charge_calls_judged", 0)}
         else:
             _run_sim(case, obs)
     finally:
